@@ -63,6 +63,10 @@ Setup ==
                << <<NameQN("ex", A, <<"attr">>), [t |-> "int", v |-> "1"]>> >>),
             NR("b2", "entity", <<NameQN("ex", A, Y)>>, <<>>, <<>>) >>
     [] Scenario \in {"c08", "c08b"} -> SetupWorld
+    [] Scenario = "c08e" ->      \* the FIRST record of a group leaves a formal argument open; later ones may disagree on it
+         SetupWorld \o
+         << NR("b1", "generation", <<NamePL("ex", <<"g">>)>>, << <<"entity", Ref(NamePL("ex", X))>> >>, <<>>),
+            NR("d1", "generation", <<NamePL("ex", <<"g">>)>>, << <<"entity", Ref(NamePL("ex", X))>> >>, <<>>) >>
     [] Scenario = "c08d" ->      \* a second bundle: bundles whose unified contents coincide stay distinct
          SetupWorld \o << [op |-> "Bundle", h |-> "d1", id |-> NameQN("ex", A, <<"b2">>), out |-> "b2"] >>
     [] Scenario = "c08c" ->      \* two kinds already share ex:x in b1, two relation kinds share ex:g in d1
@@ -145,6 +149,11 @@ RecMenu ==
              : e \in { <<>>, << <<NameQN("ex", A, <<"attr">>), [t |-> "int", v |-> "1"]>> >> } }
          \cup { [k |-> "generation", id |-> <<>>,
                  formals |-> << <<"entity", Ref(NameQN("ex", A, X))>> >>, extras |-> <<>>] }
+    [] Scenario = "c08e" ->
+         { [k |-> "generation", id |-> <<NamePL("ex", <<"g">>)>>,
+            formals |-> << <<"entity", Ref(NamePL("ex", X))>> >> \o f, extras |-> <<>>]
+             : f \in { << <<"time", [t |-> "dt", v |-> "t1"]>> >>, << <<"time", [t |-> "dt", v |-> "t2"]>> >>,
+                       << <<"activity", Ref(NamePL("ex", Y))>> >>, << <<"activity", Ref(NamePL("ex", <<"z">>))>> >> } }
     [] Scenario = "c08d" ->
          { [k |-> "entity", id |-> <<NamePL("ex", X)>>, formals |-> <<>>, extras |-> e]
              : e \in { <<>>, << <<NameQN("ex", A, <<"attr">>), [t |-> "int", v |-> "1"]>> >> } }
@@ -180,6 +189,7 @@ Targets ==
     [] Scenario = "c08b" -> {"b1"}
     [] Scenario = "c08c" -> {"b1"}
     [] Scenario = "c08d" -> {"b1", "b2"}
+    [] Scenario = "c08e" -> {"b1", "d1"}
     [] Scenario = "c09b" -> {"b1", "b2", "d1"}
     [] OTHER -> Live
 
@@ -229,7 +239,7 @@ Menu ==
     [] Scenario = "c09b" -> ActsNewRec \cup ActsUpdate \cup {a \in ActsDerive : a.op = "Flattened"}
     [] Scenario = "c09" -> ActsNewRec \cup ActsUpdate \cup ActsAddBundle \cup ActsBundle
                            \cup {a \in ActsDerive : a.op = "Flattened"}
-    [] Scenario \in {"c08", "c08b", "c08c", "c08d"} -> ActsNewRec \cup {a \in ActsDerive : a.op = "Unified"}
+    [] Scenario \in {"c08", "c08b", "c08c", "c08d", "c08e"} -> ActsNewRec \cup {a \in ActsDerive : a.op = "Unified"}
     [] Scenario = "c12" -> ActsNewRec \cup ActsAddRecord \cup ActsUpdate \cup ActsAddBundle
                            \cup ActsDerive \cup ActsMutate \cup ActsCopy
 
